@@ -299,7 +299,7 @@ impl Scenario for C11 {
     const ID: &'static str = "C11";
     const LEVEL: &'static str = "exploration";
     fn runs(tier: Tier) -> u64 {
-        tier.pick(6_000, 400_000)
+        tier.pick(300_000, 20_000_000)
     }
     fn profiles() -> &'static [Profile] {
         &[Profile::Release]
@@ -586,7 +586,7 @@ impl Scenario for C12 {
     const ID: &'static str = "C12";
     const LEVEL: &'static str = "exploration";
     fn runs(tier: Tier) -> u64 {
-        tier.pick(6_000, 400_000)
+        tier.pick(200_000, 10_000_000)
     }
     fn profiles() -> &'static [Profile] {
         &[Profile::Release]
@@ -779,7 +779,7 @@ impl Scenario for C13 {
     const ID: &'static str = "C13";
     const LEVEL: &'static str = "exploration";
     fn runs(tier: Tier) -> u64 {
-        tier.pick(6_000, 400_000)
+        tier.pick(100_000, 4_000_000)
     }
     fn profiles() -> &'static [Profile] {
         &[Profile::Dev, Profile::Release]
